@@ -33,6 +33,10 @@ global size_of usize == 8;
 //@ end
 //@ extract cas_object/src/cas_object_format.rs const CAS_OBJECT_INFO_DEFAULT_LENGTH
 //@ end
+//@ extract cas_object/src/cas_object_format.rs const CAS_OBJECT_FORMAT_BOUNDARIES_VERSION_NO_UNPACKED_INFO
+//@ end
+//@ extract cas_object/src/cas_object_format.rs struct CasObjectInfoV0
+//@ end
 //@ extract cas_object/src/cas_object_format.rs struct CasObjectInfoV1
 //@ end
 //@ extract cas_object/src/cas_object_format.rs struct CasObject
@@ -413,6 +417,43 @@ impl CasObject {
             }
             lemma_bounds_nondecreasing(c, data@.len() as int, us);
         }
+//@ end
+}
+
+// ---- constructors from a version-0 footer: every constructor leaves the two section offsets consistent with the table lengths --------------
+impl CasObjectInfoV1 {
+    // the ident / version fields every in-memory V1 info carries
+    spec fn idents_are_v1(&self) -> bool {
+        &&& self.version == CAS_OBJECT_FORMAT_VERSION
+        &&& self.ident_hash_section == CAS_OBJECT_FORMAT_IDENT_HASHES && self.hashes_version == CAS_OBJECT_FORMAT_HASHES_VERSION
+        &&& self.ident_boundary_section == CAS_OBJECT_FORMAT_IDENT_BOUNDARIES
+    }
+
+//@ extract cas_object/src/cas_object_format.rs in `impl CasObjectInfoV1` fn from_v0
+//@ ret r
+//@ contract
+        requires
+            // u32 arithmetic of fill_in_boundary_offsets
+            hash_section_len(src.chunk_hashes@.len()) + boundary_section_len(src.chunk_boundary_offsets@.len(), 0) <= u32::MAX,
+        ensures
+            /*@C07*/ r.offsets_filled(),
+            /*@C07*/ r.chunk_hashes@ == src.chunk_hashes@ && r.chunk_boundary_offsets@ == src.chunk_boundary_offsets@ && r.unpacked_chunk_offsets@.len() == 0,
+            /*@C07*/ r.num_chunks == src.num_chunks && r.cashash == src.cashash && r.ident == src.ident && r.idents_are_v1(),
+            /*@C07*/ r.boundaries_version == CAS_OBJECT_FORMAT_BOUNDARIES_VERSION_NO_UNPACKED_INFO,
+//@ end
+
+//@ extract cas_object/src/cas_object_format.rs in `impl CasObjectInfoV1` fn from_v0_with_unpacked_chunk_offsets
+//@ ret r
+//@ contract
+        requires
+            hash_section_len(src.chunk_hashes@.len()) + boundary_section_len(src.chunk_boundary_offsets@.len(), unpacked_chunk_offsets@.len()) <= u32::MAX,
+        ensures
+            // the footer of the upgraded info is self-consistent: re-serialising it writes the sections where the offsets say (serialize's
+            // section assertions are conditional on exactly this predicate) and deserialize's offset checks accept it
+            /*@C07*/ r.offsets_filled(),
+            /*@C07*/ r.chunk_hashes@ == src.chunk_hashes@ && r.chunk_boundary_offsets@ == src.chunk_boundary_offsets@ && r.unpacked_chunk_offsets@ == unpacked_chunk_offsets@,
+            /*@C07*/ r.num_chunks == src.num_chunks && r.cashash == src.cashash && r.ident == src.ident && r.idents_are_v1(),
+            /*@C07*/ r.boundaries_version == CAS_OBJECT_FORMAT_BOUNDARIES_VERSION,
 //@ end
 }
 
